@@ -291,30 +291,33 @@ Section Loader.
         end
     end.
 
-  (* [d] bounds the depth of the object tree *)
+  (* the `for member in obj.members.values()` loop; [recur] is the recursive call on a module / class member *)
+  Fixpoint members_loop (recur : acc -> nat -> acc * res unit) (a : acc) (ms : list (string * nat)) : acc * res unit :=
+    match ms with
+    | [] => (a, Ok tt)
+    | (_, m) :: rest =>
+        match nth_error (a_heap a) m with
+        | None => (a, Err EBad)
+        | Some (NAlias p _ tgt _ wild) =>
+            if wild || (match tgt with Some _ => true | None => false end) then members_loop recur a rest
+            else let '(a', r) := visit_alias a m p in
+                 match r with Err e => (a', Err e) | Ok _ => members_loop recur a' rest end
+        | Some (NObj mp container _) =>
+            if container && negb (mem_str mp (a_seen a)) then
+              let '(a', r) := recur a m in
+              match r with Err e => (a', Err e) | Ok _ => members_loop recur a' rest end
+            else members_loop recur a rest
+        end
+    end.
+
+  (* resolve_module_aliases; [d] bounds the depth of the object tree *)
   Fixpoint rma (d : nat) (a : acc) (o : nat) : acc * res unit :=
     match d with
     | 0 => (a, Err EFuel)
     | S d' =>
         match nth_error (a_heap a) o with
         | Some (NObj path _ ms) =>
-            (fix members (a : acc) (ms : list (string * nat)) : acc * res unit :=
-               match ms with
-               | [] => (a, Ok tt)
-               | (_, m) :: rest =>
-                   match nth_error (a_heap a) m with
-                   | None => (a, Err EBad)
-                   | Some (NAlias p _ tgt _ wild) =>
-                       if wild || (match tgt with Some _ => true | None => false end) then members a rest
-                       else let '(a', r) := visit_alias a m p in
-                            match r with Err e => (a', Err e) | Ok _ => members a' rest end
-                   | Some (NObj mp container _) =>
-                       if container && negb (mem_str mp (a_seen a)) then
-                         let '(a', r) := rma d' a m in
-                         match r with Err e => (a', Err e) | Ok _ => members a' rest end
-                       else members a rest
-                   end
-               end) (mkAcc (a_heap a) (path :: a_seen a) (a_resolved a) (a_unresolved a)) ms
+            members_loop (rma d') (mkAcc (a_heap a) (path :: a_seen a) (a_resolved a) (a_unresolved a)) ms
         | _ => (a, Err EBad)
         end
     end.
@@ -501,6 +504,20 @@ Fixpoint deref_all (coll : list (string * nat)) (h : heap) (ids : list nat) : he
       (h2, out :: outs)
   end.
 
+(* the same, recording the links after every single dereference (exposes the side effects of one access) *)
+Fixpoint deref_trace (coll : list (string * nat)) (h : heap) (ids : list nat) : heap * list sexp :=
+  match ids with
+  | [] => (h, [])
+  | i :: rest =>
+      let '(h1, r) := deref_top coll h i in
+      let out := match r with
+                 | Ok o => SList [SStr "ok"; SStr (ref_path h1 (RReal o))]
+                 | Err e => enc_err e
+                 end in
+      let '(h2, outs) := deref_trace coll h1 rest in
+      (h2, SList [out; enc_state h1] :: outs)
+  end.
+
 Fixpoint run_ops (coll : list (string * nat)) (h : heap) (ops : list sexp) : list sexp :=
   match ops with
   | [] => []
@@ -513,6 +530,9 @@ Fixpoint run_ops (coll : list (string * nat)) (h : heap) (ops : list sexp) : lis
   | SStr "deref" :: rest =>
       let '(h', outs) := deref_all coll h (alias_ids_from h 0) in
       SList [SStr "deref"; SList outs] :: enc_state h' :: run_ops coll h' rest
+  | SStr "deref-trace" :: rest =>
+      let '(h', outs) := deref_trace coll h (alias_ids_from h 0) in
+      SList [SStr "deref-trace"; SList outs] :: enc_state h' :: run_ops coll h' rest
   | _ => [bad_input]
   end.
 
